@@ -297,6 +297,9 @@ static Outcome run(tape_t const& tape)
     if (c.invalid)
     {
         bool error_signalled = r.signal != 0 || (r.exited && r.code != 0);
+        // an uncaught pika exception ends in std::terminate (SIGABRT) = an error report; a memory fault is not "stopping start-up with an error"
+        if (r.signal != 0 && r.signal != SIGABRT)
+            fail("invalid_input_crashes", "invalid input (" + cmdline + "| " + envs + ") was not rejected: the process died by signal " + std::to_string(r.signal) + " (" + strsignal(r.signal) + ")");
         if (entry_ran) fail("invalid_input_ignored", "invalid input (" + cmdline + "| " + envs + ") but the entry function ran as if nothing was wrong");
         else if (!error_signalled) fail("invalid_input_no_error", "invalid input: entry function did not run but no error was reported (exit 0)");
     }
